@@ -38,6 +38,9 @@ pub struct RunResult {
     pub stats: RunStats,
     pub faults_fired: Vec<(u8, i32)>,
     pub op_counts: BTreeMap<&'static str, u64>,
+    /// fault sites passed: [seam calls, process_events calls]
+    pub sites: [u32; 2],
+    pub c08_cells: BTreeMap<String, u64>,
 }
 
 pub struct Ctx<'a> {
@@ -134,6 +137,8 @@ pub fn run(p: &Program, record: bool) -> RunResult {
         stats,
         faults_fired: hk.faults_fired,
         op_counts,
+        sites: [hk.seam_calls[0], hk.pe_calls],
+        c08_cells: hk.c08_cells,
     }
 }
 
@@ -265,6 +270,7 @@ fn after_dispatch(sim: &Rc<Sim>, t: Timeout, ok: bool, err: Option<String>, t_st
     };
     if !ok {
         sim.st.borrow_mut().dispatch_error_seen = true;
+        sim.st.borrow_mut().any_dispatch_error = true;
         if !expected_err {
             sim.violate(
                 "dispatch.unexpected_error",
@@ -306,6 +312,16 @@ fn after_dispatch(sim: &Rc<Sim>, t: Timeout, ok: bool, err: Option<String>, t_st
             };
             if s.reenabled {
                 extra.push("C07");
+            }
+            if st.any_dispatch_error {
+                extra.push("C15");
+                flags.push("after_dispatch_error".into());
+            }
+            if let K::Timer(t) = &s.k {
+                if waits.first().map(|w| w.slept && Some(w.t_leave) == t.deadline).unwrap_or(false) {
+                    extra.push("C12");
+                    flags.push("limit_timer".into());
+                }
             }
             bad = Some((extra, format!("source {} ({}) had a pending cause when the wait ended but was not dispatched", id, s.k.name()), flags));
             break;
@@ -627,16 +643,22 @@ pub fn event_begin(sim: &Sim, key: usize) {
 
 pub fn event_end(sim: &Sim, _key: usize) {
     let mut viol: Option<(&'static str, Vec<String>, String)> = None;
+    let ended;
     {
         let mut st = sim.st.borrow_mut();
         let Some(id) = st.cur_event.pop() else { return };
         if id == u32::MAX {
             return;
         }
+        ended = Some(id);
         let now = sim.now_ns();
         let mut remove_key = None;
         if let Some(s) = st.srcs.get_mut(&id) {
             s.in_processing = s.in_processing.saturating_sub(1);
+            if std::mem::replace(&mut sim.hk.borrow_mut().fault_in_event, false) {
+                // an injected fault hit this source's post action
+                s.indeterminate = true;
+            }
             let last = s.sh.last_ret.take();
             let deferred = s.deferred.take();
             match last {
@@ -658,6 +680,11 @@ pub fn event_end(sim: &Sim, _key: usize) {
                             None => PostAction::Continue,
                         }
                     };
+                    match fin {
+                        PostAction::Reregister => s.exp[1] += 1,
+                        PostAction::Disable => s.exp[2] += 1,
+                        _ => {}
+                    }
                     if s.inserted {
                         match fin {
                             PostAction::Continue => {}
@@ -706,10 +733,59 @@ pub fn event_end(sim: &Sim, _key: usize) {
                 st.key_to_id.remove(&k);
             }
         }
+        // a source that is gone by the end of its event (removed itself, or asked for
+        // removal) is unregistered exactly once by the loop
+        if let Some(s) = st.srcs.get_mut(&id) {
+            if !s.inserted && (s.removed_in_own_cb || remove_key.is_some()) {
+                s.exp[2] += 1;
+            }
+            if s.sh.last_ret.get().is_none() && matches!(s.k, K::Failed) {
+                s.indeterminate = true;
+            }
+        }
     }
     if let Some((r, f, d)) = viol {
         sim.violate(r, f, d);
+        return;
     }
+    check_counts(sim, ended);
+}
+
+/// C09: register / reregister / unregister calls seen by every wrapped source against the
+/// calls the model says the history implies. `during` = key of the event that just ended.
+pub fn check_counts(sim: &Sim, during: Option<Id>) {
+    let st = sim.st.borrow();
+    let cur = during;
+    for (id, s) in st.srcs.iter() {
+        if s.indeterminate || matches!(s.k, K::Failed) || s.in_processing > 0 {
+            continue;
+        }
+        let seen = [s.sh.reg.get(), s.sh.rereg.get(), s.sh.unreg.get()];
+        if seen != s.exp {
+            let what = ["register", "reregister", "unregister"];
+            let i = (0..3).find(|i| seen[*i] != s.exp[*i]).unwrap();
+            let other = during.is_some() && cur != Some(*id);
+            let msg = format!(
+                "source {} ({}) saw {} {}() calls, the history implies {}{}",
+                id,
+                s.k.name(),
+                seen[i],
+                what[i],
+                s.exp[i],
+                if other { " - the extra call came while another source's event was being finished" } else { "" }
+            );
+            let flags = vec![what[i].to_string(), if seen[i] > s.exp[i] { "extra".into() } else { "missing".into() }];
+            // a missing unregister leaves the fd in the poller and the source half-released
+            // an unrequested extra (un/re)registration silences or disturbs a source that did
+            // not ask for it
+            let extra: &[&str] = if i == 2 && seen[i] < s.exp[i] { &["C16", "C06", "C15", "C01"] } else if seen[i] > s.exp[i] { &["C07"] } else { &[] };
+            drop(st);
+            sim.violate_props(if other { "postaction.wrong_target" } else { "postaction.count" }, extra, flags, msg);
+            return;
+        }
+    }
+    drop(st);
+    sim.rule_ok(&["C09"], 90 + during.is_some() as u64);
 }
 
 /// Model effect of a successful (re)registration of an enabled source.
@@ -746,8 +822,19 @@ pub fn model_enabled(s: &mut Src, now: u64) {
 }
 
 /// process_events of source `id` starts (called by Wrap).
-pub fn pe_begin(id: Id, _key: usize) {
-    let Some(sim) = try_cur() else { return };
+pub fn pe_begin(id: Id, _key: usize) -> bool {
+    let Some(sim) = try_cur() else { return false };
+    // fault site 4: the n-th process_events call of the run fails
+    let injected = {
+        let mut hk = sim.hk.borrow_mut();
+        let n = hk.pe_calls;
+        hk.pe_calls += 1;
+        let hit = hk.faults.iter().any(|f| f.site == 4 && f.nth == n);
+        if hit {
+            hk.faults_fired.push((4, 0));
+        }
+        hit
+    };
     let mut st = sim.st.borrow_mut();
     if let Some(s) = st.srcs.get_mut(&id) {
         s.pe_this_dispatch += 1;
@@ -763,7 +850,12 @@ pub fn pe_begin(id: Id, _key: usize) {
             }
             _ => {}
         }
+        if injected {
+            // the source never saw the event: whatever it had pending is in an unknown state
+            s.indeterminate = true;
+        }
     }
+    injected
 }
 
 /// process_events of source `id` returned (called by Wrap).
@@ -850,7 +942,12 @@ fn step_invariants(sim: &Rc<Sim>, p: &Program, i: usize) {
             return;
         }
         if !stats.pending_action_is_continue {
-            sim.violate("stats.pending_action", vec![], "a deferred post action is still stored although no source is being processed".into());
+            // internal state, not behaviour: the behavioural consequence (the action hits
+            // another source) is what the call-count oracle reports
+            sim.probe("pending_action_left_in_cell");
+        }
+        check_counts(sim, None);
+        if sim.is_dead() {
             return;
         }
         // timer residue: bounded by live timers, must not accumulate
@@ -875,6 +972,14 @@ fn step_invariants(sim: &Rc<Sim>, p: &Program, i: usize) {
             }
         }
         sim.rule_ok(&["C06"], live as u64);
+        let faulted = {
+            let hk = sim.hk.borrow();
+            !hk.faults_fired.is_empty() || hk.probes.get("insert_failed").copied().unwrap_or(0) > 0 || hk.probes.get("scripted_failure").copied().unwrap_or(0) > 0 || hk.probes.get("dispatch_err_expected").copied().unwrap_or(0) > 0
+        };
+        if faulted {
+            // the loop survived a failure and is still consistent with the model
+            sim.rule_ok(&["C15"], 150 + live as u64);
+        }
     }
     if p.table_every > 0 && (i as u32 + 1) % p.table_every == 0 {
         crate::table::check_table(sim);
